@@ -1,6 +1,7 @@
 import MidoProofs.SrcTie.Meta
 import MidoProofs.SrcTie.Vlq
 import MidoProofs.SrcTie.MetaFrame
+import MidoProofs.SrcTie.MetaRoundTrip
 #print axioms Mido.src_check_int
 #print axioms Mido.src_meta_sequence_number_encode
 #print axioms Mido.src_meta_channel_prefix_encode
@@ -26,3 +27,4 @@ import MidoProofs.SrcTie.MetaFrame
 #print axioms Mido.src_meta_bytes
 #print axioms Mido.src_meta_bytes_err
 #print axioms Mido.src_unknown_meta_bytes
+#print axioms Mido.src_meta_roundtrip
